@@ -84,6 +84,8 @@ def binop(interp, op, a, b):
     M = _missing()
     ctx = interp.ctx
     # date arithmetic
+    if isinstance(a, SDate) and isinstance(b, dt.timedelta) and b.seconds == 0 and b.microseconds == 0:
+        b = _TimeDelta(b.days)
     if isinstance(a, SDate) and isinstance(b, _TimeDelta):
         interp.used_models.add("datetime: date +/- timedelta(days=n) is day-number arithmetic")
         if op == "Add":
@@ -164,16 +166,20 @@ def today(interp) -> SDate:
 
 
 # date <-> string functions are uninterpreted, with the shape facts that callers rely on
-def ymd_of(interp, d: SDate):
-    """strftime('%Y%m%d'): 8 digits (years 1000..9999 - stated input domain)."""
+def ymd_of(interp, d: SDate, shape=False):
+    """strftime('%Y%m%d'): an uninterpreted function of the day number, 8 characters long
+    (years 1000..9999 - stated input domain).  shape=True additionally assumes the digits and the
+    strptime round trip (used where a caller parses the text back)."""
     f = sym.ufun("strftime_Ymd", z3.IntSort(), z3.StringSort())
     s = f(d.t)
-    interp.ctx.assume(z3.InRe(s, z3.Loop(DIGIT, 8, 8)))
-    # injective: parse(strftime(d)) == d
-    p = sym.ufun("parse_Ymd", z3.StringSort(), z3.IntSort())
-    v = sym.ufun("valid_Ymd", z3.StringSort(), z3.BoolSort())
-    interp.ctx.assume(z3.And(p(s) == d.t, v(s)))
-    interp.used_models.add("datetime: strftime('%Y%m%d') yields 8 digits and round-trips through strptime (years 1000-9999)")
+    interp.ctx.assume(z3.Length(s) == 8)
+    interp.used_models.add("datetime: strftime('%Y%m%d') is a function of the date and yields 8 characters (years 1000-9999)")
+    if shape:
+        interp.ctx.assume(z3.InRe(s, z3.Loop(DIGIT, 8, 8)))
+        p = sym.ufun("parse_Ymd", z3.StringSort(), z3.IntSort())
+        v = sym.ufun("valid_Ymd", z3.StringSort(), z3.BoolSort())
+        interp.ctx.assume(z3.And(p(s) == d.t, v(s)))
+        interp.used_models.add("datetime: strftime('%Y%m%d') yields 8 digits and round-trips through strptime")
     return sym.sstr(s)
 
 
@@ -488,7 +494,7 @@ def _b_list(interp, args, kwargs):
     if not args:
         return []
     v = args[0]
-    if isinstance(v, SList):
+    if isinstance(v, SList) and builtins.getattr(interp, "list_bound", None) is None:
         return v.copy()
     return list(interp.iterate(v))
 
@@ -765,7 +771,27 @@ def str_method(interp, s, name, args, kwargs):
     if name == "replace":
         raise Unsupported("str.replace on symbolic string (replace_all)")
     if name == "format":
-        raise Unsupported("str.format on symbolic string")
+        # assumed builtin: str.format is a function of the template and the argument values
+        if args:
+            raise Unsupported("str.format with positional arguments on a symbolic template")
+        terms, sig = [], []
+        for k in sorted(kwargs):
+            v = kwargs[k]
+            items = interp.iterate(v) if isinstance(v, (list, tuple, SList)) else [v]
+            sig.append(f"{k}{len(items)}")
+            for x in items:
+                x = mk(x)
+                if sym.is_strlike(x):
+                    terms.append(zstr(x))
+                elif isinstance(x, SDate):
+                    terms.append(x.t)
+                elif sym.is_intlike(x):
+                    terms.append(zint(x))
+                else:
+                    raise Unsupported("str.format argument type")
+        f = sym.ufun("str_format_" + "_".join(sig), z3.StringSort(), *[t.sort() for t in terms], z3.StringSort())
+        interp.used_models.add("str.format: uninterpreted function of the template and the keyword argument values")
+        return sym.sstr(f(zstr(s), *terms))
     raise Unsupported(f"str.{name} on symbolic string")
 
 
@@ -780,8 +806,6 @@ def list_method(interp, lst: list, name, args, kwargs):
         return None
     if name == "extend":
         v = args[0]
-        if isinstance(v, SList):
-            raise Unsupported("extend of concrete-length list by a symbolic-length list")
         lst.extend(interp.iterate(v))
         return None
     if name == "pop":
@@ -937,7 +961,7 @@ def smap_method(interp, m: SMap, name, args, kwargs):
         k = m.kty.unwrap(ctx, args[0])
         default = args[1] if len(args) > 1 else None
         if ctx.branch(z3.Select(m.has, k), "map.get: present"):
-            return sym.mk_elem(m.vty, z3.Select(m.val, k))
+            return sym.mk_elem(m.vty, z3.Select(m.val, k), ctx)
         return default
     if name == "copy":
         return m.copy()
